@@ -12,6 +12,7 @@ import (
 	"sort"
 	"strconv"
 	"strings"
+	"time"
 	"unicode/utf8"
 
 	"github.com/lrstanley/girc"
@@ -610,9 +611,18 @@ func init() {
 		},
 		Gen: func(r *rand.Rand) Case { return Case{cdGenLine(r)} },
 		Run: func(c Case) Result {
+			cdSetZone()
+			before := time.Now()
 			e := girc.ParseEvent(c[0])
-			res := Result{Obs: cdShowEvent(e), Sig: cdParseSig(c[0], e)}
-			if e != nil && cdWfEvent(e) {
+			after := time.Now()
+			ast, gl := cdGrammatical(c[0])
+			res := Result{Obs: cdShowEvent(e) + "|gl=" + B(gl), Sig: cdParseSig(c[0], e)}
+			if gl {
+				// a line of the grammar: the parse must be the structure the grammar assigns (C02)
+				res.Sig = "grammatical/" + res.Sig
+				res.Oracle = cdGrammarDiff(ast, cdRefMeaning(ast), e, before, after)
+			}
+			if res.Oracle == "" && e != nil && cdWfEvent(e) {
 				res.Oracle = cdParseStableDiff(e)
 			}
 			return res
@@ -853,9 +863,8 @@ func init() {
 		},
 	})
 
-	// Set on a nil Tags: kept apart from codec.tags (not listed in conf/C01.json) because
-	// the current Go code loses the value while reporting success; see
-	// notes/proposed-fixes/tags-set-nil.diff.
+	// Set on a nil Tags (repaired in 637a0fa: an error is returned).  The oracle class
+	// tags-set-nil fires if Set ever again reports success while the value is lost.
 	Register(&Suite{
 		Name:  "codec.tags.nilrecv",
 		Prop:  []string{"C01"},
